@@ -94,7 +94,11 @@ def check_packing(ctx, oq, AWQPackedTensor, AWQPacking, rng, N, K, packing, reor
         ctx.violation(dict(sig0, kind="packing_not_a_bijection"),
                       dict(desc=desc, slots=int(slot_pos.numel()), distinct=int(torch.unique(slot_pos).numel())))
         return
-    for name, t in fillings(rng, N, K):
+    # the code matrix may be held in any integer dtype (v1 unpack() itself returns int8: repacking its result is a use)
+    code_dtype = [torch.uint8, torch.uint8, torch.int8, torch.int16, torch.int32, torch.int64][int(rng.integers(6))]
+    ctx.see("code_dtypes", str(code_dtype))
+    for name, t8 in fillings(rng, N, K):
+        t = t8.to(code_dtype)
         tb = fp.plain_bytes(t)
         try:
             P = AWQPackedTensor.pack(t, packing=pk, reorder=reorder)
@@ -106,10 +110,10 @@ def check_packing(ctx, oq, AWQPackedTensor, AWQPacking, rng, N, K, packing, reor
         if fp.plain_bytes(t) != tb:
             ctx.violation(dict(sig0, kind="pack_modifies_source"), dict(desc=desc))
         # value independence: the payload is the recovered data movement applied to these values
-        if not torch.equal(nibbles_of(data), t.reshape(-1)[slot_pos]):
+        if not torch.equal(nibbles_of(data).to(torch.int64), t.reshape(-1)[slot_pos].to(torch.int64)):
             ctx.violation(dict(sig0, kind="packing_depends_on_values_or_history", filling=name), dict(desc=desc))
         u = oracles.plain(u)
-        if tuple(u.shape) != (N, K) or not torch.equal(u.to(torch.uint8), t):
+        if tuple(u.shape) != (N, K) or not torch.equal(u.to(torch.int64), t.to(torch.int64)):
             ctx.violation(dict(sig0, kind="unpack_not_inverse", filling=name), dict(desc=desc, shape=list(u.shape)))
         if tuple(P.shape) != (N, K):
             ctx.violation(dict(sig0, kind="packed_reports_wrong_shape"), dict(desc=desc, shape=list(P.shape)))
